@@ -6,7 +6,9 @@
  *
  *   C10.meta.read_from_cursor  every byte handed out is copied from the cached
  *                              block at the cursor: src == data + offset,
- *                              1 <= n <= data_used - offset, dst == out + done
+ *                              1 <= n <= data_used - offset, dst == out + done;
+ *                              the cursor is where it was on entry plus what
+ *                              was handed out since (ghost g_mr.cur)
  *   C10.meta.read_refill_next  the block is replaced only when the cursor is at
  *                              its end, and by the block at next_block
  *   C10.meta.read_complete     ret == 0 => exactly `size` bytes were delivered
@@ -27,6 +29,8 @@ typedef struct {
 	unsigned char *out;	/* destination buffer */
 	size_t size0;		/* requested size */
 	size_t done;		/* bytes delivered so far */
+	size_t cur;		/* where the read cursor has to be: entry value,
+				   plus what was handed out, 0 after a refill */
 } mr_ghost_t;
 static mr_ghost_t g_mr;
 
@@ -61,7 +65,8 @@ static int mr_in_reader(const void *p)
 
 static void *mr_copy_out(void *d, const void *s, size_t n)
 {
-	VERIF_ASSERT((const sqfs_u8 *)s == g_m->data + g_m->offset &&
+	VERIF_ASSERT((const sqfs_u8 *)s == g_m->data + g_mr.cur &&
+		     g_m->offset == g_mr.cur &&
 		     g_m->offset <= g_m->data_used &&
 		     n >= 1 && n <= g_m->data_used - g_m->offset &&
 		     (unsigned char *)d == g_mr.out + g_mr.done &&
@@ -76,15 +81,19 @@ static void *mr_copy_out(void *d, const void *s, size_t n)
 		g_mr.out[g_mr.done + g_k] = g_m->data[g_m->offset + g_k];
 #endif
 	g_mr.done += n;
+	g_mr.cur += n;
 	return d;
 }
 
 static void mr_on_read_at(unsigned long long off, void *buf, size_t n)
 {
-	if (mr_in_reader(buf))
-		return;		/* block body */
+	if (mr_in_reader(buf)) {
+		g_mr.cur = 0;	/* block body: a refill starts at offset 0 */
+		return;
+	}
 	/* block header: a refill */
 	VERIF_ASSERT(n == 2 && g_m->offset == g_m->data_used &&
+		     g_m->offset == g_mr.cur &&
 		     off == g_m->next_block, MRN("read_refill_next"));
 }
 
@@ -126,6 +135,7 @@ void harness(void)
 	g_mr.out = out;
 	g_mr.size0 = size;
 	g_mr.done = 0;
+	g_mr.cur = m->offset;
 
 	ret = sqfs_meta_reader_read(m, out, size);
 
